@@ -167,6 +167,29 @@ Lemma iso_caller_unchanged : forall P (E : iengine P) q st c h a st' c' h' out,
   a < length h -> iso_process E true q st c h a = (st', c', h', out) -> iso_hget h' a = iso_hget h a.
 Proof. intros. eapply iso_process_frame in H0. destruct H0 as [_ F]. apply F. auto. Qed.
 
+(* direct path: the row given to the sink (or returned by EmitSync) is a map allocated by this very
+   Emit - not the caller's map, not any map that existed before.  So whatever the receiver then does
+   to the row it was given (here: overwrite it with any content r) changes none of the older maps. *)
+Lemma iso_delivered_fresh : forall P (E : iengine P) q st c h a st' c' h' d,
+  iq_window q = false ->
+  iso_process E true q st c h a = (st', c', h', Some d) ->
+  length h <= d /\ d < length h' /\
+  forall r b, b < length h -> iso_hget (iso_hput h' d r) b = iso_hget h b.
+Proof.
+  intros P E q st c h a st' c' h' d Hw H.
+  pose proof H as H2. apply iso_process_frame in H2. destruct H2 as [L F].
+  unfold iso_process in H.
+  destruct (iso_row E true q st c (iso_hget h a)) as [[[st1 c1] res] [inplace w]] eqn:Hr.
+  destruct res as [r0|]; [|inversion H].
+  rewrite Hw in H. inversion H. subst. clear H.
+  remember (if inplace then iso_hput h a w else h ++ [w]) as h1 eqn:Hh1.
+  assert (L1 : length h <= length h1).
+  { subst h1. destruct inplace; [rewrite iso_hput_length; lia | rewrite app_length; simpl; lia]. }
+  clear Hh1.
+  split; [exact L1|]. split; [rewrite app_length; simpl; lia|].
+  intros r b Hb. rewrite iso_hput_other by lia. apply F. exact Hb.
+Qed.
+
 (* content of the delivered row = the result computed by the row function *)
 Lemma iso_process_out : forall P (E : iengine P) fixd q st c h a st' c' h' out st1 c1 res m,
   a < length h ->
